@@ -9,6 +9,7 @@ EXTENDS Props, Randomization, Json
 CONSTANTS
     Topics, Descs, Mons, RecKeys, RecVals,     \* aol alphabet
     FeePayers,                                  \* fee payer choices of AddRecord: subset of Accts \cup {"none"}
+    ForeignVm,                                  \* BOOLEAN: update/deactivate may name a verification method of another DID
     Dids, DocNames, Keys, VmNames, Seqs,        \* did alphabet (documents are built in DocByName; Seqs: sequence numbers proofs are made over)
     DenomIds, TokenIds, DNames, TDescs,         \* pnft alphabet (TDescs: token description / data values, may include "")
     Amts, SendDenoms, VestEnds,                 \* bank alphabet
@@ -65,7 +66,7 @@ AolMsgs ==
 Vm(n, k, ty)      == [n |-> n, key |-> k, type |-> ty]
 Ref(n)            == [n |-> n, ded |-> FALSE, key |-> "", type |-> ""]
 Ded(n, k, ty)     == [n |-> n, ded |-> TRUE, key |-> k, type |-> ty]
-Doc(d, vms, auth, asrt) == [id |-> d, vms |-> vms, auth |-> auth, asrt |-> asrt]
+Doc(d, vms, auth, asrt) == [id |-> d, vms |-> vms, auth |-> auth, asrt |-> asrt, ex |-> ""]
 
 \* k1 = the DID's first key, k2 = a second key, k3 = a key never listed under authentication
 DocByName(d, name) ==
@@ -75,6 +76,7 @@ DocByName(d, name) ==
       [] name = "C1"  -> Doc(d, {Vm("v1", "k1", "es19"), Vm("v2", "k2", "es19")}, {Ref("v1")}, {"v2"})       \* k2 only a verification method + assertionMethod
       [] name = "D2"  -> Doc(d, {Vm("v1", "k1", "es19")}, {Ref("v1"), Ded("v2", "k2", "es19")}, {})          \* dedicated authentication method
       [] name = "F12" -> Doc(d, {Vm("v1", "k1", "es19")}, {Ded("v1", "k2", "es19")}, {"v1"})                  \* dedicated authentication method (k2) sharing its id with a plain verification method (k1)
+      [] name = "R1"  -> [Doc(d, {Vm("v1", "k1", "es19")}, {Ref("v1")}, {}) EXCEPT !.ex = "rich"]                    \* A1 plus controller, contexts, key agreement, services
       [] name = "E1"  -> Doc(d, {Vm("v1", "k1", "ed25")}, {Ref("v1")}, {})                                   \* Ed25519-typed method holding a secp256k1 key
       [] name = "N0"  -> Doc(d, {Vm("v1", "k1", "es19")}, {}, {})                                            \* no authentication at all (statelessly invalid)
       [] name = "EMP" -> EmptyDoc
@@ -91,16 +93,19 @@ ProofsFor(d, own) ==
 
 Relayer == CHOOSE a \in Accts : TRUE
 
+\* the DID named in a message's verification method id: the DID itself, or (ForeignVm) any other DID of the alphabet
+VmDids(d) == IF ForeignVm THEN Dids ELSE {d}
+
 DidMsgs ==
     (IF "did.Create" \in Kinds THEN
         UNION { UNION { {[type |-> "did.Create", did |-> d, doc |-> dc, vm |-> v, vmDid |-> IF dc.id = "" THEN d ELSE dc.id, proof |-> p, from |-> Relayer] :
                             v \in VmNames, p \in ProofsFor(d, dc)} : dc \in AllDocs } : d \in Dids } ELSE {})
     \cup (IF "did.Update" \in Kinds THEN
-        UNION { UNION { {[type |-> "did.Update", did |-> d, doc |-> dc, vm |-> v, vmDid |-> d, proof |-> p, from |-> Relayer] :
-                            v \in VmNames, p \in ProofsFor(d, dc)} : dc \in AllDocs } : d \in Dids } ELSE {})
+        UNION { UNION { {[type |-> "did.Update", did |-> d, doc |-> dc, vm |-> v, vmDid |-> vd, proof |-> p, from |-> Relayer] :
+                            v \in VmNames, p \in ProofsFor(d, dc), vd \in VmDids(d)} : dc \in AllDocs } : d \in Dids } ELSE {})
     \cup (IF "did.Deactivate" \in Kinds THEN
-        UNION { {[type |-> "did.Deactivate", did |-> d, vm |-> v, vmDid |-> d, proof |-> p, from |-> Relayer] :
-                            v \in VmNames, p \in ProofsFor(d, DeactDoc(d))} : d \in Dids } ELSE {})
+        UNION { {[type |-> "did.Deactivate", did |-> d, vm |-> v, vmDid |-> vd, proof |-> p, from |-> Relayer] :
+                            v \in VmNames, p \in ProofsFor(d, DeactDoc(d)), vd \in VmDids(d)} : d \in Dids } ELSE {})
 
 \* simulation aid: DID messages whose proof is made with a current authentication key over the right payload and sequence - for every
 \* (did field, document) combination, including documents about another DID. Uniform sampling of the alphabet almost never draws these.
@@ -233,8 +238,9 @@ AlphabetDump == (path # << >>) \/ PrintT(<<"ALPHABET", ToJson(SetToSeq(Txs))>>)
 \* rollback probes (tours): every ordered pair of messages followed by a message that always fails, as ONE transaction - whatever the
 \* first two did is rolled back and must leave no trace (in the stores or in process memory) when the alphabet is fired afterwards
 FailMsg == [type |-> "aol.DeleteWriter", owner |-> Relayer, topic |-> "t9", writer |-> Relayer]      \* topic t9 is never created
-ProbeTxs == {[msgs |-> <<m1, m2, FailMsg>>, signers |-> ReqSet(<<m1, m2, FailMsg>>, "none"), fee |-> 0, exec |-> "none"] : m1 \in Msgs, m2 \in Msgs}
-ProbeDump == (path # << >>) \/ PrintT(<<"PROBES", ToJson(SetToSeq(ProbeTxs))>>)
+\* (an operator WITH a parameter: TLC evaluates parameterless constant-level definitions eagerly at start-up, and |Msgs|^2 can be a million)
+ProbeTxsOf(ms) == {[msgs |-> <<m1, m2, FailMsg>>, signers |-> ReqSet(<<m1, m2, FailMsg>>, "none"), fee |-> 0, exec |-> "none"] : m1 \in ms, m2 \in ms}
+ProbeDump == (path # << >>) \/ PrintT(<<"PROBES", ToJson(SetToSeq(ProbeTxsOf(Msgs)))>>)
 
 \* non-vacuity witnesses (each must be VIOLATED when listed as an invariant: TLC then shows a behaviour reaching it)
 W_TwoRecords == ~(\E k \in DOMAIN aolRecords : k[3] = 1)
